@@ -558,3 +558,6 @@ def run(chk, tier):
     chk.guard('C13.b', lambda: rule_number_ident(chk, prog, tier))
     chk.guard('C13.c', lambda: rule_keywords(chk, prog, tier))
     chk.guard('C13.d', lambda: rule_comments(chk, prog, tier))
+    from props import c11
+    chk.guard('C11.c', lambda: c11.rule_nextchar(chk, prog, tier))      # the character reader (splices)
+    chk.guard('C11.d', lambda: c11.rule_tokenloc(chk, prog, tier))
